@@ -89,12 +89,14 @@ class FormatCheckC(core.Contract):
         known = fmt_known(fmt.t)
         ok = z3.Bool("check_ok!%d" % I.ctx.new_oid())
         cause = SV(smt.fresh("cause", V))
-        return branch(I.ctx, st, [
-            (z3.Not(known), lift(None)),
-            (z3.And(known, ok), lift(None)),
-            (z3.And(known, z3.Not(ok)), Raised(ExcVal("FormatError", {"message": Opaque("msg"), "cause": cause}, origin="check"))),
-            (known, Raised(ExcVal("UnlistedExc", {}, origin="check"))),
-        ])
+        outs = []
+        for cond, tag, payload in ((z3.Not(known), "returns", lift(None)), (z3.And(known, ok), "returns", lift(None)),
+                                   (z3.And(known, z3.Not(ok)), "format-error", Raised(ExcVal("FormatError", {"message": Opaque("msg"), "cause": cause}, origin="check"))),
+                                   (known, "unlisted", Raised(ExcVal("UnlistedExc", {}, origin="check")))):
+            s = st.fork()
+            s.ghost["check_calls"] = s.ghost.get("check_calls", ()) + ((tag, args[1], args[2]),)
+            outs.extend(branch(I.ctx, s, [(cond, payload)]))
+        return outs
 
 
 class FormatTask(CoreTask):
@@ -211,14 +213,23 @@ class FormatTask(CoreTask):
                 n += 1
                 out = cat(*s.out)
                 tag = "with-checker" if with_checker else "no-checker"
+                calls = s.ghost.get("check_calls", ())
+                consulted = len(calls) == 1 and calls[0][1] is inst and calls[0][2] is fmt
+                obls.append(core.Obligation("%s/F/%s.consults-checker#%d" % (self.name, tag, n), "F", s.pc,
+                                            z3.BoolVal(bool(consulted) if with_checker else len(calls) == 0),
+                                            note="with a checker, check(instance, format) is called exactly once for every instance of every type; without one, never"))
                 if ctl[0] == "return":
                     if isinstance(out, Nil):
                         seen.add("none")
+                        obls.append(core.Obligation("%s/F/%s.no-error#%d" % (self.name, tag, n), "F", s.pc,
+                                                    z3.BoolVal(not with_checker or (consulted and calls[0][0] == "returns")),
+                                                    note="no error exactly when check returned"))
                         continue
                     ok = isinstance(out, One) and isinstance(out.val, ErrVal) and isinstance(out.val.fields.get("cause"), SV)
+                    ok = ok and consulted and calls[0][0] == "format-error"
                     seen.add("one")
                     obls.append(core.Obligation("%s/F/%s.error#%d" % (self.name, tag, n), "F", s.pc, z3.BoolVal(bool(ok and with_checker)),
-                                                note="one ValidationError carrying the FormatError's cause, only with a checker"))
+                                                note="one ValidationError carrying the FormatError's cause, exactly when check raised FormatError"))
                 else:
                     seen.add("raise:" + ctl[1].cls)
                     obls.append(core.Obligation("%s/F/%s.propagates#%d" % (self.name, tag, n), "F", s.pc, z3.BoolVal(ctl[1].cls == "UnlistedExc" and with_checker),
